@@ -340,13 +340,13 @@ func outLast() any                               { return nil }
 //@ loop 1 invariant [C06 C07 C09 C11 C15] exists-mode-undecided: found == nil ==> res == statusNotFound
 //@ loop 2 invariant [C06 C07 C09 C11 C15] exists-mode-undecided: found == nil ==> res == statusNotFound
 //@ loop 2 invariant [C09 C14] last-restored: exec.innermostArraySize == old(exec.innermostArraySize)
-//@ loop 2 invariant [C14] in-bounds: 0 <= indexFrom && indexFrom <= index && indexTo < size && size == len(array)
+//@ loop 2 invariant [C14] in-bounds: 0 <= callret[int](exec.execSubscript, 0) && callret[int](exec.execSubscript, 0) <= index && callret[int](exec.execSubscript, 1) < size && size == len(array)
 //@ loop 2 invariant [C07 C20] no-pending: pendingErr() == nil && !pendingFailed() && resErr == nil && res != statusFailed
 //@ loop 2 invariant status: res == statusOK || res == statusNotFound
-//@ loop 2 invariant [C14] every-element: ncalls(exec.executeNextItem) == loopEntry(ncalls(exec.executeNextItem)) + (index - indexFrom)
-//@ loop 2 decreases indexTo - index + 1
-//@ loop 2 invariant [C08 C14] range-of-this-subscript: indexFrom == callret[int](exec.execSubscript, 0) && indexTo == callret[int](exec.execSubscript, 1) && ncalls(exec.execSubscript) >= 1 && (indexFrom <= indexTo ==> index <= indexTo + 1)
-//@ loop 2 invariant [C08 C14] emitted-in-order: is[[]any](value) && index > indexFrom && array[index-1] != nil ==> ncalls(exec.executeNextItem) >= 1 && callarg[any](exec.executeNextItem, "value") == array[index-1]
+//@ loop 2 invariant [C14] every-element: ncalls(exec.executeNextItem) == loopEntry(ncalls(exec.executeNextItem)) + (index - callret[int](exec.execSubscript, 0))
+//@ loop 2 decreases callret[int](exec.execSubscript, 1) - index + 1
+//@ loop 2 invariant [C08 C14] range-of-this-subscript: ncalls(exec.execSubscript) >= 1 && (callret[int](exec.execSubscript, 0) <= callret[int](exec.execSubscript, 1) ==> index <= callret[int](exec.execSubscript, 1) + 1)
+//@ loop 2 invariant [C08 C14] emitted-in-order: is[[]any](value) && index > callret[int](exec.execSubscript, 0) && array[index-1] != nil ==> ncalls(exec.executeNextItem) >= 1 && callarg[any](exec.executeNextItem, "value") == array[index-1]
 //@ loop 1 invariant [C08 C14] earlier-subscripts-emitted: is[[]any](value) && ncalls(exec.execSubscript) >= 1 && callret[int](exec.execSubscript, 0) <= callret[int](exec.execSubscript, 1) && array[callret[int](exec.execSubscript, 1)] != nil ==> ncalls(exec.executeNextItem) >= 1 && callarg[any](exec.executeNextItem, "value") == array[callret[int](exec.execSubscript, 1)]
 //@ atcall execSubscript assert [C08 C14] items-before-next-subscript: is[[]any](value) && ncalls(exec.execSubscript) >= 1 && callret[int](exec.execSubscript, 0) <= callret[int](exec.execSubscript, 1) && array[callret[int](exec.execSubscript, 1)] != nil ==> ncalls(exec.executeNextItem) >= 1 && callarg[any](exec.executeNextItem, "value") == array[callret[int](exec.execSubscript, 1)]
 //@ atcall executeNextItem assert [C14] element: arg_value == array[index] && arg_found == found
